@@ -479,3 +479,20 @@ func vh_C20_L10_call_during_a_transport_write_is_served() {
 	a.closeWriteLoopOnce.Do(func() { close(a.closeWriteLoopCh) })
 	vcover("end")
 }
+
+// C20.L11: the concurrent scenarios decided under other properties: Close racing a handler
+// parked under the association lock (= C09.L6b), a reader parked in a real Read when the
+// association ends (= C09.L12), an acknowledgement processed while a blocking write is parked
+// (= C15.L7), the low-threshold callback never invoked under a lock (= C15.L9), the handshake
+// result offered before the connect call waits (= C04.L7).
+func vh_C20_L11_close_racing_a_parked_handler() {
+	vh_C09_L6_close_gets_through_to_a_handler_parked_under_the_lock()
+}
+func vh_C20_L11_parked_reader_at_teardown() { vh_C09_L12_parked_reader_leaves_no_deadline_goroutine() }
+func vh_C20_L11_ack_while_a_blocking_write_is_parked() {
+	vh_C15_L7_failed_blocking_write_keeps_concurrent_release()
+}
+func vh_C20_L11_callback_never_under_a_lock() { vh_C15_L9_callback_is_never_invoked_under_a_lock() }
+func vh_C20_L11_handshake_result_before_the_caller_waits() {
+	vh_C04_L7_handshake_result_waits_for_the_connect_call()
+}
